@@ -157,6 +157,81 @@ def rrun (fx : Fixes) (q : Quirks) (c : Cfg) (ss : Stores) : List XOp → Stores
     let (s2, os) := rrun fx q c s1 ops
     (s2, o :: os)
 
+-- ---------------------------------------------------------------- copy-source conditions
+
+/-- An `x-amz-copy-source-if-match` / `-if-none-match` header as seen against the source object:
+absent, `*`, the source's ETag, or some other ETag. -/
+inductive TagCond where
+  | none | star | same | other
+  deriving Repr, DecidableEq, Inhabited
+
+/-- The copy-source preconditions of a CopyObject / UploadPartCopy. The two time conditions are
+given **relative to the source's Last-Modified truncated to the second** (milliseconds; negative =
+the header names an earlier instant), which is all the evaluation depends on. -/
+structure CopyCond where
+  im  : TagCond := .none
+  inm : TagCond := .none
+  ius : Option Int := none      -- If-Unmodified-Since − ⌊Last-Modified⌋
+  ims : Option Int := none      -- If-Modified-Since − ⌊Last-Modified⌋
+  deriving Repr, DecidableEq, Inhabited
+
+def CopyCond.isNone (c : CopyCond) : Bool := c == {}
+
+/-- `metadatapart.evaluateCopySourceConditions` (object_read.go), the evaluator of a copy inside
+one storage. `lastModified.After(since)` ⇔ `since − ⌊lastModified⌋ < 0`. -/
+def condOkSame (c : CopyCond) : Bool :=
+  let imPassed := c.im == .star || c.im == .same
+  if c.im != .none && !imPassed then false
+  else if c.inm == .star || c.inm == .same then false
+  else if c.ius.any (fun d => !(c.im != .none && imPassed) && decide (d < 0)) then false
+  else if c.ims.any (fun d => !decide (d < 0)) then false
+  else true
+
+/-- `conditional.copySourceConditionsSatisfied` (conditional.go), the evaluator of the cross-storage
+branch — a second copy of the same code, evaluated against the `HeadObject` of the source. -/
+def condOkCross (c : CopyCond) : Bool :=
+  let ifMatchPassed := c.im == .star || c.im == .same
+  if c.im != .none && !ifMatchPassed then false
+  else if c.inm == .star || c.inm == .same then false
+  else if c.ius.any (fun d => !(c.im != .none && ifMatchPassed) && decide (d < 0)) then false
+  else if c.ims.any (fun d => !decide (d < 0)) then false
+  else true
+
+/-- The source a copy call reads. -/
+def copySource : XOp → Option (String × String × Option (Option Nat))
+  | .base (.copy sb sk svid _ _ _ _ _) => some (sb, sk, svid)
+  | .partCopy sb sk svid _ _ _ _ _ => some (sb, sk, svid)
+  | _ => none
+
+/-- A copy with preconditions inside one storage (`metadatapart.CopyObject` / `UploadPartCopy`):
+the source is resolved first (its errors win), then the preconditions, then the copy. Calls that
+are not copies ignore `cond`. -/
+def xstepIf (q : Quirks) (s : State) (cond : CopyCond) (op : XOp) : State × XOut :=
+  match copySource op with
+  | none => xstep q s op
+  | some (sb, sk, svid) =>
+    match readSource s sb sk svid with
+    | .error _ => xstep q s op
+    | .ok _ => if condOkSame cond then xstep q s op else (tick s, .base (.err .preconditionFailed))
+
+/-- The middleware on a call with copy-source preconditions: same storage → that storage's call;
+across storages `readSourceForCopy` evaluates them itself after `HeadObject`, before `GetObject`. -/
+def rstepIf (fx : Fixes) (q : Quirks) (c : Cfg) (ss : Stores) (cond : CopyCond) (op : XOp) : Stores × RoutedOut :=
+  match route op, copySource op with
+  | .copy sb db, some (_, sk, svid) =>
+    let si := storageOf c sb
+    let di := storageOf c db
+    if si == di then
+      let (s', out) := xstepIf q (getS ss di) cond op
+      (ss.set di s', ⟨out, [di]⟩)
+    else
+      match readSource (getS ss si) sb sk svid with
+      | .error _ => rstep fx q c ss op
+      | .ok _ =>
+        if condOkCross cond then rstep fx q c ss op
+        else (ss, ⟨.base (.err .preconditionFailed), [si]⟩)
+  | _, _ => rstep fx q c ss op
+
 /-- The storages whose state a call may change. -/
 def targets (c : Cfg) (op : XOp) : List Nat :=
   match route op with
